@@ -6,6 +6,7 @@ import (
 	"fmt"
 	"io"
 	"math/rand/v2"
+	"net/url"
 	"os"
 	"sort"
 	"sync"
@@ -16,7 +17,27 @@ import (
 	"verif/simrt"
 
 	"github.com/folbricht/desync"
+	"github.com/pkg/sftp"
 )
+
+type stdio struct{}
+
+func (stdio) Read(p []byte) (int, error)  { return os.Stdin.Read(p) }
+func (stdio) Write(p []byte) (int, error) { return os.Stdout.Write(p) }
+func (stdio) Close() error                { return nil }
+
+// sftpStore opens the real SFTPStore against this test binary acting as `ssh host -s sftp`.
+func sftpStore(dir string, n int, uncompressed bool) (*desync.SFTPStore, error) {
+	exe, err := os.Executable()
+	if err != nil {
+		return nil, err
+	}
+	os.Setenv("CASYNC_SSH_PATH", exe)
+	os.Setenv("VERIF_SFTP_SHIM", "1")
+	defer os.Unsetenv("VERIF_SFTP_SHIM")
+	u, _ := url.Parse("sftp://localhost" + dir)
+	return desync.NewSFTPStore(u, desync.StoreOptions{N: n, Uncompressed: uncompressed})
+}
 
 func repoDir() string {
 	if v := os.Getenv("VERIF_REPO"); v != "" {
@@ -26,6 +47,15 @@ func repoDir() string {
 }
 
 func TestMain(m *testing.M) {
+	// used as CASYNC_SSH_PATH shim: serve the sftp subsystem over stdio on the real file system
+	if os.Getenv("VERIF_SFTP_SHIM") == "1" {
+		srv, err := sftp.NewServer(stdio{})
+		if err != nil {
+			os.Exit(3)
+		}
+		srv.Serve()
+		os.Exit(0)
+	}
 	if err := ref.SelfCheck(repoDir()); err != nil {
 		fmt.Fprintln(os.Stderr, "reference self-check failed:", err)
 		os.Exit(2)
